@@ -9,13 +9,13 @@ from mc import b_tf, b_tool, b_alpha as ba
 PROPERTY = "C23"
 LEVEL = "exploration"
 META = {
-    "text": "Every network reachable from 5 base nets by <=1 (thorough <=2) deviations, in 3 (thorough 4) equivalent representations (as built, per-unit base x100, all indices relabelled with gaps; thorough also relabelled in descending order), is solved, handed to every real toolbox transformation of the statement at every applicable target (create_continuous_bus_index / _elements_index, replace_line_by_impedance and replace_impedance_by_line single and round trip, replace_ext_grid_by_gen(slack), replace_gen_by_ext_grid, replace_ward/xward_by_internal_elements, merge_nets with a disjoint companion in both orders, select_subnet of every supplied island, drop_out_of_service_elements, drop_inactive_elements, fuse_buses over every closed z=0 bus-bus switch in both directions, merge_parallel_line), solved again, and the results of corresponding buses/elements are compared. Exhaustive within that bound, no sampling.",
+    "text": "Every network reachable from 5 base nets by <=1 (thorough <=2) deviations, in 3 (thorough 4) equivalent representations (as built, per-unit base x100, all indices relabelled with gaps that are skewed between tables; thorough also aligned gaps and descending order), is solved, handed to every real toolbox transformation of the statement at every applicable target (create_continuous_bus_index / _elements_index, replace_line_by_impedance and replace_impedance_by_line single and round trip, replace_ext_grid_by_gen(slack), replace_gen_by_ext_grid, replace_ward/xward_by_internal_elements, merge_nets with a disjoint companion in both orders, select_subnet of every supplied island, drop_out_of_service_elements, drop_inactive_elements, fuse_buses over every closed z=0 bus-bus switch in both directions, merge_parallel_line), solved again, and the results of corresponding buses/elements are compared. Exhaustive within that bound, no sampling.",
     "note": "Trusted: the correspondence maps in mc/b_tool.py (from return values, tag columns carried through the call, or documented behaviour) and the island computation used for select_subnet. Targets a function declines (only_valid_replace) are counted, not judged. Only pairs where both power flows converge are compared; a transformation that raises on an applicable target or makes the calculation fail is reported. ZIP loads are kept out (C01-zip).",
     "technique": "bounded exhaustive enumeration of (network, representation, toolbox transformation, target) on the real code with a metamorphic equality oracle",
     "design_ref": "DESIGN.md §3 E1, §4 C23",
 }
 
-PRES = [["id"], ["sn"], ["relabel_all", "gap"], ["relabel_all", "gapperm"]]
+PRES = [["id"], ["sn"], ["relabel_all", "skew"], ["relabel_all", "gap"], ["relabel_all", "gapperm"]]
 
 
 def _viol(clause, detail, base, pre, opt, t, toks, klass):
@@ -57,7 +57,7 @@ def _explain(net0, t, n2=None, M=None, extra=None, opts=None, skip=()):
                 if agrees(v, M):
                     toks.append("explained=ext_grid_va_degree_dropped")
         if t[0] in ("line2imp", "line2imp2line"):
-            idx = list(net0.line.index) if t[1] == "all" else [t[1]]
+            idx = b_tool.line_targets(net0, t)
             sw = net0.switch.index[(net0.switch.et == "l") & net0.switch.element.isin(idx) & ~net0.switch.closed]
             if len(sw):
                 v = copy.deepcopy(net0)
@@ -65,7 +65,7 @@ def _explain(net0, t, n2=None, M=None, extra=None, opts=None, skip=()):
                 if agrees(v, M):
                     toks.append("explained=open_line_switch_lost")
         if t[0] in ("line2imp", "line2imp2line") and "line_index_not_0..n-1" in toks:
-            idx = list(net0.line.index) if t[1] == "all" else [t[1]]
+            idx = b_tool.line_targets(net0, t)
             if t[0] == "line2imp":
                 idx = [i for i in idx if i not in n2.line.index]       # the lines that really were replaced
             if idx and all(0 <= int(i) < len(net0.line) for i in idx):
@@ -112,8 +112,7 @@ def _explain(net0, t, n2=None, M=None, extra=None, opts=None, skip=()):
     return toks
 
 
-SN_TOOLS = ("xward", "ward", "line2imp", "line2imp2line", "imp2line", "imp2line2imp", "merge", "eg2gen", "gen2eg",
-            "merge_parallel")
+SN_TOOLS = ("xward", "ward", "line2imp", "line2imp2line", "imp2line", "imp2line2imp", "merge", "merge_parallel")
 PERM_TOOLS = ("cont_bus", "cont_elem", "line2imp", "line2imp2line", "imp2line", "imp2line2imp", "merge", "fuse", "subnet")
 
 
@@ -121,8 +120,10 @@ def _tools_for(T, pre, tier):
     """quick tier: a representation is paired only with the tools whose code can depend on it (per-unit base: the
     replace/merge functions that compute per-unit values; descending labels: everything that sorts or looks up by
     index); the as-built and the gapped representation get every tool.  thorough: everything everywhere."""
-    if tier != "quick" or pre[0] == "id" or pre == ["relabel_all", "gap"]:
+    if tier != "quick" or pre[0] == "id":
         return T
+    if pre == ["relabel_all", "skew"]:
+        return [t for t in T if t != ["cont_bus", 5]]
     keep = SN_TOOLS if pre[0] == "sn" else PERM_TOOLS
     return [t for t in T if t[0] in keep and not (pre[0] == "sn" and t == ["merge", "case_second"])]
 
@@ -226,6 +227,15 @@ def c23_menu(b):
                   ["multi", [["set", "line", 4, "c_nf_per_km", 0.], ["set", "line", 4, "parallel", 2]]]]
     if b == "T3":
         extra += [["multi", [["set", "line", 0, "c_nf_per_km", 0.], ["switch", 2, 0, "l", False, 0.]]]]
+    # lines at TWO voltage levels, one replaceable and one that only_valid_replace declines (either way round)
+    if b in ("T3", "W3"):
+        extra += [["multi", [["set", "line", 0, "c_nf_per_km", 0.], ["bus", 0, True]]],
+                  ["multi", [["bus", 0, True], ["set", "line", 1, "c_nf_per_km", 0.]]]]
+    # trafo AND trafo3w in one net, two trafos so that a trafo3w label can equal the label of the SECOND trafo
+    # (representation "skew"), an open switch at either trafo
+    if b == "W3":
+        extra += [["multi", [["trafo", 0, 1], ["trafo", 0, 1], ["switch", 0, 1, "t", False, 0.]]],
+                  ["multi", [["trafo", 0, 1], ["trafo", 0, 1], ["switch", 1, 0, "t", False, 0.]]]]
     for d in extra:
         if d not in m:
             m.append(d)
@@ -238,9 +248,9 @@ def gen_cases(tier):
     for b in ba.BASES:
         for devs in na.subsets(c23_menu(b), k):
             for pre in PRES:
-                if tier == "quick" and pre == ["relabel_all", "gapperm"]:
+                if tier == "quick" and pre in (["relabel_all", "gapperm"], ["relabel_all", "gap"]):
                     continue
-                if len(devs) == 2 and pre not in (["id"], ["relabel_all", "gap"]):
+                if len(devs) == 2 and pre not in (["id"], ["relabel_all", "skew"]):
                     continue
                 cases.append({"base": b, "devs": [list(d) for d in devs], "pre": pre,
                               "opts": ["ac"] if (tier == "quick" or len(devs) == 2) else ["ac", "dc"], "tier": tier})
